@@ -465,14 +465,34 @@ Definition resync_section (w : world) (ip : N) (o : oracle) (oclear : list N) (f
       let k := Keys.parse_key (e_key e) in
       if resync_skip e k then (w, SOk) else
       if pod_running w (Keys.ko_ns k) (Keys.ko_pod k) (e_uid e) then (w, SOk) else
+      (* K3b (repaired): with a provider, EVERY IP of the key that still has a node stored is unassigned - all IPs of the key are
+         cleared and released / reserved below - whether or not the item's own IP has a node stored; when none has, the provider
+         is not called and the clearing ReserveIP is skipped.  [oclear] = the order of the unassign loop followed by the order
+         of the clearing ReserveIP (two independent map iterations); a failing provider call ends the item (retried by the
+         next pass) *)
+      let assigned := List.filter (fun kv => negb (Keys.is_empty (e_node (snd kv)))) (by_key (w_ipam w) (e_key e)) in
       let step1 : world * sres :=
-        if w_provider w && negb (Keys.is_empty (e_node e)) then
-          if bool_decide (f_cloud fl = Some 0%nat) then (w, SErr)
-          else
-            let w1 := cloud_unassign w ip (e_node e) in
-            (* reserveIP key key: clears node and uid of ALL IPs of the key; its error is only logged *)
-            let r := reserve_ip (w_ipam w1) (e_key e) (e_key e) free_entry_attr oclear None in
-            match snd r with AStuck => (w1, SStuck) | _ => (set_ipam w1 (fst r), SOk) end
+        if w_provider w && (match assigned with [] => false | _ => true end) then
+          let n := List.length assigned in
+          let oun := take n oclear in
+          let ocl := drop n oclear in
+          let valid := bool_decide (NoDup oun) && forallb (fun x => existsb (fun kv => fst kv =? x) assigned) oun in
+          let full := bool_decide (List.length oun = n) in
+          if negb valid then (w, SStuck)
+          else match unassign_loop w oun 0 fl with
+               | (w1, SOk) =>
+                   if negb full then (w, SStuck) else
+                   (* reserveIP key key: clears node and uid of ALL IPs of the key; its error is only logged *)
+                   let r := reserve_ip (w_ipam w1) (e_key e) (e_key e) free_entry_attr ocl None in
+                   match snd r with AStuck => (w1, SStuck) | _ => (set_ipam w1 (fst r), SOk) end
+               | (w1, SErr) =>
+                   (* the loop stopped at the failing call: exactly the calls before it were made *)
+                   match f_cloud fl with
+                   | Some j => if bool_decide (List.length oun = S j) || full then (w1, SErr) else (w, SStuck)
+                   | None => (w, SStuck)
+                   end
+               | r' => r'
+               end
         else (w, SOk) in
       match step1 with
       | (w1, SOk) =>
@@ -495,8 +515,10 @@ Definition api_release_section (w : world) (k : Keys.keyobj) (ip : N) (oclear : 
           if bool_decide (f_cloud fl = Some 0%nat) then (w, SErr)
           else
             let w1 := cloud_unassign w ip (e_node e) in
-            let r := reserve_ip (w_ipam w1) (e_key e) (e_key e) free_entry_attr oclear None in
-            match snd r with AStuck => (w1, SStuck) | AOk => (set_ipam w1 (fst r), SOk) | _ => (set_ipam w1 (fst r), SErr) end
+            (* K3b (repaired): node and uid of THIS IP only are cleared (UpdateAttr); the other IPs of the key stay assigned *)
+            let r := update_attr (w_ipam w1) (e_key e) ip {| a_policy := e_policy e; a_node := []; a_uid := [] |}
+                                 (bool_decide (f_update fl = Some 0%nat)) in
+            match snd r with AOk => (set_ipam w1 (fst r), SOk) | _ => (w1, SErr) end
         else (w, SOk) in
       match step1 with
       | (w1, SOk) => let r := release (w_ipam w1) (Keys.ko_key k) ip (bool_decide (f_store fl = Some 0%nat)) in
